@@ -143,6 +143,7 @@ var activities = []activity{
 	{"tag-update ticker with pending signals", []string{"api:import:P1", "drain", "api:addtag:tag/d=cdata:foo", "drain", "api:color:tag/d=#111111"}, "", false, false, nil, nil},
 	{"watch directory receiving captures", []string{"api:import:P1", "drain", "api:addtag:tag/d=cdata:foo", "drain"}, "", false, false, dropIntoWatchDir, nil},
 	{"converter directory: executable added, touched, removed", []string{"api:import:P1", "drain", "api:addtag:tag/p=cport:1", "drain", "api:converters:tag/p=conv", "drain"}, "", true, false, churnConverterDir, nil},
+	{"tagging job body of a tag that filters on cached converter output", []string{"api:import:P1+P2", "drain", "api:addtag:tag/p=cport:1", "drain", "api:converters:tag/p=conv", "drain", "api:addtag:tag/d=cdata.conv:FOO"}, "tag", true, false, nil, nil},
 	{"conversion job body whose converter process dies on one of two streams", []string{"api:import:P1+P2", "drain", "api:addtag:tag/p=cport:1", "drain", "api:converters:tag/p=conv"}, "convert", true, false, nil, map[string]string{"VCONV_DIE_ON": "FOO1"}},
 	{"conversion job body whose converter breaks the protocol on one of two streams", []string{"api:import:P1+P2", "drain", "api:addtag:tag/p=cport:1", "drain", "api:converters:tag/p=conv"}, "convert", true, false, nil, map[string]string{"VCONV_BAD_ON": "FOO2"}},
 }
